@@ -26,3 +26,31 @@ def check(prog, rep):
     forward_bucket(prog, rep)
     # observation only: single insert of an id-bearing event differs between backends
     rep.note("sibling cross-check (observation, not a rule): a single insert of an id-bearing event is an upsert in memory and peewee but a plain INSERT that ignores the id in sqlite; the property speaks of bulk upsert only")
+
+
+SQ = "aw_datastore/storages/sqlite.py"
+PW = "aw_datastore/storages/peewee.py"
+ME = "aw_datastore/storages/memory.py"
+AB = "aw_datastore/storages/abstract.py"
+VARIANTS = [
+    ("B sqlite replace_last by max(endtime) equality (original defect)", SQ, "                        SELECT id FROM events\n                        WHERE bucketrow = (SELECT rowid FROM buckets WHERE id = ?)\n                        ORDER BY starttime DESC, id DESC LIMIT 1)\"\"\"", "                        SELECT id FROM events WHERE endtime =\n                            (SELECT max(endtime) FROM events WHERE bucketrow =\n                                (SELECT rowid FROM buckets WHERE id = ?) LIMIT 1))\"\"\"", ["LAST", "SCOPE"]),
+    ("B sqlite replace_last ordered by id", SQ, "                        ORDER BY starttime DESC, id DESC LIMIT 1)\"\"\"", "                        ORDER BY id DESC LIMIT 1)\"\"\"", "LAST"),
+    ("B sqlite replace_last without LIMIT", SQ, "                        ORDER BY starttime DESC, id DESC LIMIT 1)\"\"\"", "                        ORDER BY starttime DESC, id DESC)\"\"\"", "LAST"),
+    ("B sqlite replace_last ascending", SQ, "                        ORDER BY starttime DESC, id DESC LIMIT 1)\"\"\"", "                        ORDER BY starttime ASC, id DESC LIMIT 1)\"\"\"", "LAST"),
+    ("B memory replace_last via max() (first of ties)", ME, "last = sorted(self.db[bucket_id], key=lambda e: e.timestamp)[-1]", "last = max(self.db[bucket_id], key=lambda e: e.timestamp)", "LAST"),
+    ("B memory replace_last keyed on end instant", ME, "last = sorted(self.db[bucket_id], key=lambda e: e.timestamp)[-1]", "last = sorted(self.db[bucket_id], key=lambda e: e.timestamp + e.duration)[-1]", "LAST"),
+    ("B memory replace_last takes the list tail", ME, "last = sorted(self.db[bucket_id], key=lambda e: e.timestamp)[-1]", "last = self.db[bucket_id][-1]", "LAST"),
+    ("B peewee _get_last ordered by id", PW, "            .where(EventModel.bucket == self.bucket_keys[bucket_id])\n            .order_by(EventModel.timestamp.desc())\n            .get()", "            .where(EventModel.bucket == self.bucket_keys[bucket_id])\n            .order_by(EventModel.id.desc())\n            .get()", "LAST"),
+    ("B peewee replace_last re-assigns the id", PW, "        e.datastr = json.dumps(event.data)\n        e.save()\n        event.id = e.id\n        return event\n\n    def delete", "        e.datastr = json.dumps(event.data)\n        e.id = event.id or e.id\n        e.save()\n        event.id = e.id\n        return event\n\n    def delete", ["LAST-SET", "SCOPE"]),
+    ("B sqlite replace by id only (original defect)", SQ, "                     WHERE id = ?\n                       AND bucketrow = (SELECT rowid FROM buckets WHERE id = ?)\"\"\"\n        self.conn.execute(\n            query, [bucket_id, starttime, endtime, datastr, event_id, bucket_id]\n        )", "                     WHERE id = ?\"\"\"\n        self.conn.execute(query, [bucket_id, starttime, endtime, datastr, event_id])", "SCOPE"),
+    ("B sqlite delete ignores the event id", SQ, "\"WHERE id = ? AND bucketrow = (SELECT b.rowid FROM buckets b WHERE b.id = ?)\"\n        )\n        cursor = self.conn.execute(query, [event_id, bucket_id])", "\"WHERE bucketrow = (SELECT b.rowid FROM buckets b WHERE b.id = ?)\"\n        )\n        cursor = self.conn.execute(query, [bucket_id])", "ADDR"),
+    ("B memory delete matches on timestamp", ME, "            for idx, event in reversed(list(enumerate(self.db[bucket_id])))\n            if event.id == event_id\n        ):\n            self.db[bucket_id].pop(idx)", "            for idx, event in reversed(list(enumerate(self.db[bucket_id])))\n            if event.id >= event_id\n        ):\n            self.db[bucket_id].pop(idx)", "ADDR"),
+    ("B sqlite partitions overlap", SQ, "        events_insert = [e for e in events if e.id is None]", "        events_insert = [e for e in events]", "UPSERT"),
+    ("B peewee id-less events filtered by truthiness of id", PW, "            for event in events\n            if event.id is None\n        ]", "            for event in events\n            if not event.id\n        ]", "UPSERT"),
+    ("B inherited insert_many skips falsy events", AB, "        for event in events:\n            self.insert_one(bucket_id, event)", "        for event in events:\n            if event.data:\n                self.insert_one(bucket_id, event)", "UPSERT"),
+    ("B memory id from the event count", ME, "                event.id = max(int(e.id or 0) for e in self.db[bucket]) + 1", "                event.id = len(self.db[bucket])", "IDALLOC"),
+    ("B events.id without AUTOINCREMENT", SQ, "        id INTEGER PRIMARY KEY AUTOINCREMENT,\n        bucketrow", "        id INTEGER PRIMARY KEY,\n        bucketrow", "SCHEMA"),
+    ("OK explicit ASC on the tie-break", SQ, "                        ORDER BY starttime DESC, id DESC LIMIT 1)\"\"\"", "                        ORDER BY starttime  DESC ,  id  DESC  LIMIT  1)\"\"\"", "ok"),
+    ("OK memory replace_last via reversed sort", ME, "last = sorted(self.db[bucket_id], key=lambda e: e.timestamp)[-1]", "last = sorted(self.db[bucket_id], key=lambda e: e.timestamp)[::-1][0]", "ok"),
+    ("OK partition written with not", SQ, "        events_insert = [e for e in events if e.id is None]", "        events_insert = [e for e in events if not e.id is not None]", "ok"),
+]
